@@ -681,6 +681,9 @@ func init() {
 		if err := c12GlueFacts(repo, &sb); err != nil {
 			return "", err
 		}
+		if err := c12TimePlanFacts(repo, &sb); err != nil {
+			return "", err
+		}
 		return sb.String(), nil
 	}})
 }
